@@ -224,6 +224,16 @@ func C09(r *core.Run) {
 				out.Fails = out.Fails[:3000]
 			}
 		})
+		// nesting: block starts and ends with short and long lines between them, deeper than the general alphabet goes
+		// (sibling blocks inside a block, blocks after blocks)
+		enumFmtFiles(fmtNesting, 0, r.Pick(8, 9), shard, n, func(lines []string, v fmtVariant, content string) {
+			if len(lines) < 5 || v.Header != 1 {
+				return
+			}
+			r.Inflight(content)
+			out.Files++
+			c09Eval(root, path, lines, v, content, &out)
+		})
 		// white-space only files
 		if shard == 0 {
 			for _, x := range []string{"", "\n", "\n\n", " ", " \n", "\t\n\n", "\r\n", "\r\n\r\n", "  \n  \n"} {
